@@ -2328,6 +2328,10 @@ func (m *ExpirationManager) CreateOrFetchRevocationLeaseByToken(ctx context.Cont
 			m.deleteLockForLease(leaseID)
 			return "", err
 		}
+
+		// Track the new lease: if the caller's revocation fails, the lease
+		// must not stay in storage without anything driving its expiry.
+		m.updatePending(le)
 	}
 
 	return le.LeaseID, nil
